@@ -271,6 +271,13 @@ class Interp:
             return [v.get(i) for i in range(n)]
         if isinstance(v, MList):
             return self.concrete_items(v.seq)
+        if isinstance(v, S.SIter):
+            rest = v.remaining()
+            n = z3.simplify(rest.length)
+            if z3.is_int_value(n):
+                items = [rest.get(i) for i in range(n.as_long())]
+                v.pos = z3.simplify(v.seq.length)   # drained
+                return items
         if type(v).__name__ in ('dict_keyiterator', 'dict_valueiterator',
                                 'dict_itemiterator', 'tuple_iterator',
                                 'list_iterator', 'dict_keys', 'dict_values',
@@ -751,6 +758,8 @@ class Interp:
             return getattr(obj, name)
         if isinstance(obj, (SFunc, ClassRef)) and name == 'name':
             return obj.name
+        if isinstance(obj, FuncRef) and name == 'name' and self.spec:
+            return obj.qualname         # (contracts only) which function
         if isinstance(obj, FuncRef) and name == 'closure_vars':
             out = {}
             f = obj.closure
